@@ -199,7 +199,8 @@ fn collect_vec_pairs(mfs: Vec<proto::MetricFamily>, hist: bool) -> Value {
 /// Execute one scripted API call on the real object.
 pub fn exec(obj: &Obj, loc: &mut Locals, op: &Value) -> Value {
     let k = op["k"].as_str().unwrap();
-    let v = op.get("v").and_then(|x| x.as_f64()).unwrap_or(0.0);
+    // amounts are JSON numbers; the non-finite ones (and -0) travel as strings ("+Inf", "-Inf", "NaN", "-0")
+    let v = op.get("v").map(|x| if x.is_string() { crate::pm::fparse(x) } else { x.as_f64().unwrap_or(0.0) }).unwrap_or(0.0);
     let vi = op.get("v").and_then(|x| x.as_i64()).unwrap_or(0);
     let vs: Vec<f64> = op.get("vs").and_then(|x| x.as_array()).map(|a| a.iter().map(|x| x.as_f64().unwrap()).collect()).unwrap_or_default();
     let t = xf();
@@ -493,13 +494,17 @@ pub fn run_file(input: &str, output: &str, want_ops: bool) {
 
 fn run_job(scen: &Value, names: &[String], job: &Value, budget: usize, want_ops: bool) -> Run {
     let n = names.len();
-    let obj = make_obj(&scen["obj"]);
-    let cells = known_cells(&obj);
+    // "share": "ref" — all threads use ONE handle by reference (as `&Gauge` in thread::scope or an `Arc<Gauge>` would);
+    // default: every thread owns a clone of the handle
+    let share_ref = scen["obj"].get("share").and_then(|x| x.as_str()) == Some("ref");
+    let obj_arc: Arc<Obj> = Arc::new(make_obj(&scen["obj"]));
+    let obj: &Obj = &obj_arc;
+    let cells = known_cells(obj);
     let mut sched = Sched::new(n);
     let cur_call: Arc<Mutex<Vec<String>>> = Arc::new(Mutex::new(vec![String::new(); n]));
     for tid in 0..n {
         let script: Vec<Value> = scen["scripts"][&names[tid]].as_array().cloned().unwrap_or_default();
-        let o = obj.clone();
+        let o: Arc<Obj> = if share_ref { obj_arc.clone() } else { Arc::new(obj.clone()) };
         let cc = cur_call.clone();
         let tname = names[tid].clone();
         sched.spawn(tid, move |ctx| {
